@@ -527,3 +527,68 @@ def run_map_sharing_sites(repo, task):
     if n < 1:
         rep['detail'] = 'no map hand-over site found: the generator no longer matches the source layout'
     return rep
+
+
+def run_pool_parity_sites(repo, task):
+    """C18 / C19 site obligations read off the AST (G12): every Batch method that has a sequential branch (`if self._max_workers is None:` with a nested
+    generator yielding `label, call_X((bundle))`) and a pooled branch (a nested `arg_gen` yielding a bundle, handed with `call_X` to `_apply_pool*`)
+    applies THE SAME call helper to THE SAME bundle expression in both, pairs each result with the loop's own label variable, and records that very
+    label for the pooled result.  Unrecognised forms are undecided, not refuted."""
+    import ast
+    t0 = time.time()
+    items, failures = [], []
+
+    def ob(name, ok, note, fn, undecided=False):
+        v = 'proved' if ok else ('undecided' if undecided else 'refuted')
+        items.append(dict(name=name, fn=fn, kind='G12', verdict=v, backend='ast', ms=0.0, note=note))
+        if v == 'refuted':
+            failures.append(dict(key=f'G:{name}', what=f'{name}: {note}', nofail=True, replay=dict(site=name, note=note)))
+    path = os.path.join(repo, 'static_frame/core/batch.py')
+    tree = ast.parse(open(path).read())
+    n = 0
+    for cls in [c for c in ast.walk(tree) if isinstance(c, ast.ClassDef) and c.name == 'Batch']:
+        for fn in [f for f in cls.body if isinstance(f, ast.FunctionDef)]:
+            inner = {f.name: f for f in ast.walk(fn) if isinstance(f, ast.FunctionDef) and f is not fn}
+            if 'arg_gen' not in inner:
+                continue
+            q = f'batch.py:Batch.{fn.name}'
+            n += 1
+            seq = inner.get('gen')
+            # sequential side: for label, frame in self._items: yield label, call_X((bundle))
+            s_call = s_bundle = s_label = s_loop = None
+            if seq is not None:
+                for y in [x for x in ast.walk(seq) if isinstance(x, ast.Yield)]:
+                    v = y.value
+                    if isinstance(v, ast.Tuple) and len(v.elts) == 2 and isinstance(v.elts[1], ast.Call) and isinstance(v.elts[1].func, ast.Name) and len(v.elts[1].args) == 1:
+                        s_label, s_call, s_bundle = ast.unparse(v.elts[0]), v.elts[1].func.id, ast.unparse(v.elts[1].args[0])
+                for loop in [l for l in ast.walk(seq) if isinstance(l, ast.For)]:
+                    s_loop = ast.unparse(loop.target)
+            # pooled side
+            p_bundle = p_loop = p_append = None
+            ag = inner['arg_gen']
+            for y in [x for x in ast.walk(ag) if isinstance(x, ast.Yield)]:
+                p_bundle = ast.unparse(y.value)
+            for loop in [l for l in ast.walk(ag) if isinstance(l, ast.For)]:
+                p_loop = ast.unparse(loop.target)
+            for c_ in [x for x in ast.walk(ag) if isinstance(x, ast.Call) and isinstance(x.func, ast.Attribute) and x.func.attr == 'append' and ast.unparse(x.func.value) == 'labels']:
+                p_append = ast.unparse(c_.args[0]) if c_.args else None
+            p_call = None
+            for c_ in [x for x in ast.walk(fn) if isinstance(x, ast.Call) and isinstance(x.func, ast.Attribute) and x.func.attr.startswith('_apply_pool')]:
+                if len(c_.args) >= 3 and isinstance(c_.args[2], ast.Name):
+                    p_call = c_.args[2].id
+                    ob(f'{q}:pool-receives-recorded-labels-and-arg_gen', ast.unparse(c_.args[0]) == 'labels' and ast.unparse(c_.args[1]) == 'arg_gen()',
+                       f'{ast.unparse(c_)[:120]}', q)
+            recognised = None not in (s_call, s_bundle, s_label, s_loop, p_bundle, p_loop, p_append, p_call)
+            if not recognised:
+                ob(f'{q}:pool-parity', False, f'form not recognised (sequential: {s_label}, {s_call}({s_bundle}) over {s_loop}; pooled: {p_call}, {p_bundle} over {p_loop}, labels.append({p_append}))', q, undecided=True)
+                continue
+            first = lambda t: t.strip('()').split(',')[0].strip()
+            ob(f'{q}:same-call-helper', s_call == p_call, f'sequential applies {s_call}, the pool applies {p_call}', q)
+            ob(f'{q}:same-bundle', s_bundle.strip('()').replace(' ', '') == p_bundle.strip('()').replace(' ', ''), f'sequential bundle ({s_bundle}) vs pooled bundle ({p_bundle})', q)
+            ob(f'{q}:same-iteration', s_loop == p_loop and 'self._items' in ast.unparse(ag) and 'self._items' in ast.unparse(seq), f'loops over {s_loop} / {p_loop}', q)
+            ob(f'{q}:result-paired-with-loop-label', s_label == first(s_loop) and p_append == first(p_loop), f'sequential yields under {s_label}, pool records {p_append}; loop variables {s_loop}', q)
+    rep = dict(name=task['name'], status='ok' if n >= 4 else 'checker-fault', items=items, failures=failures, evaluations=0, distinct=0, rule='',
+               samples=[dict(obligation=i['name'], verdict=i['verdict']) for i in items[:3]], trusted=[], assumptions=[], wall_s=round(time.time() - t0, 2))
+    if n < 4:
+        rep['detail'] = f'only {n} pooled Batch methods found: the generator no longer matches the source layout'
+    return rep
